@@ -196,8 +196,10 @@ def collect_variants(n, seed):
     if not tables:
         raise HarnessError("no corpus file can be re-emitted for C14 variants")
     mod = st.tuples(st.integers(0, 400), st.sampled_from(ODD_RESNAMES), st.lists(st.sampled_from(DROP_ATOMS), max_size=5, unique=True))
+    # long_chains (mmCIF only): author chain names of two characters, as chains cut from large assemblies have - such
+    # a table does not fit the PDB limits as it is and has to be renamed on its way to a PDB file
     strat = st.fixed_dictionaries({"file": st.sampled_from(sorted(tables)), "ext": st.sampled_from(["pdb", "cif"]),
-                                   "mods": st.lists(mod, min_size=1, max_size=5)})
+                                   "mods": st.lists(mod, min_size=1, max_size=5), "long_chains": st.booleans()})
     got = []
 
     @hypothesis.seed(seed)
@@ -223,6 +225,9 @@ def collect_variants(n, seed):
                     a["resname"] = resname
         for k, a in enumerate(atoms):
             a["serial"] = k + 1
+        if c.get("long_chains") and c["ext"] == "cif":
+            for a in atoms:
+                a["chain"] = a["chain"] + a["chain"].lower() + "x"
         text = atomtab.emit_pdb(atoms) if c["ext"] == "pdb" else atomtab.emit_cif(atoms)
         out.append((c, text))
     return out
